@@ -5,12 +5,12 @@ META = dict(
     technique="stateless DFS over all socket-double answer sequences (send: every count, zero, would-block; "
               "recv: every cut, would-block) for each transport class; no sampling",
     text="For Client, ClientTls, Incomer, IncomerTls (fake TLS socket), the serial Driver over a server double and over "
-         "DeviceNb with a fake os, every queue of 1-3 messages of 1-3 distinct bytes (total <= 6 quick / 8 thorough) is "
+         "DeviceNb with a fake os, every queue of 1-3 messages of 1-3 distinct bytes (total <= 6 quick / 9 thorough) is "
          "transmitted while the socket double answers each send with every possible count, zero or would-block (TLS: "
          "SSLWantWrite/SSLWantRead); all answer sequences with at most 2 (3) non-progress answers are enumerated. After "
          "every service call the bytes accepted by the double must be a prefix of the queue concatenation, at drain "
          "exactly equal to it, and the real WireLog (buffify) must hold exactly the accepted chunks. Receive side: a "
-         "stream of 1-6 (8) distinct bytes is delivered with every cut and would-block pattern, through serviceReceives "
+         "stream of 1-6 (9) distinct bytes is delivered with every cut and would-block pattern, through serviceReceives "
          "and serviceReceiveOnce with a large and a 2-byte buffer; rxbs must equal the bytes returned so far after every "
          "call and the whole stream at the end.",
     note="Trusts that the doubles' answer space (counts 0..len, would-block, arbitrary cuts) covers what a non-blocking "
@@ -22,7 +22,7 @@ import itertools
 from mc import core, net
 
 QUICK = dict(tx_total=6, tx_stalls=2, rx_total=6, rx_stalls=2)
-THOROUGH = dict(tx_total=8, tx_stalls=3, rx_total=8, rx_stalls=3)
+THOROUGH = dict(tx_total=9, tx_stalls=3, rx_total=9, rx_stalls=3)
 ALPHABET = b"abcdefghijklmnopqrstuvwxyz"
 TRANSPORTS = ("Client", "ClientTls", "Incomer", "IncomerTls", "Driver", "DriverDeviceNb")
 PORT = 7000
